@@ -61,17 +61,27 @@ def known_symm_radius(case, failing):
 
 def run(ctx):
     quick = ctx["tier"] == "quick"
-    args = ["--count", "150" if quick else "1500", "--maxn", "150", "--mode", "quick" if quick else "thorough"]
-    r = codec.run_simple("C16", ctx, "ess", args,
-                         oracle_aspects={"status", "exact", "eccf", "eccb", "diam", "dv", "radius", "rv", "sched"},
-                         corr_aspects={"replay", "replayrv", "schedrv"},
-                         nontrivial=lambda c: None if int(c.get("n", "0")) < 2 else
-                         (c.get("g"), c.get("sym"), c.get("rad"), c.get("lvl"), c.get("tot")))
+    oracle = {"status", "exact", "eccf", "eccb", "diam", "dv", "radius", "rv", "sched"}
+    corr = {"replay", "replayrv", "schedrv"}
+    nontrivial = (lambda c: None if int(c.get("n", "0")) < 2 else
+                  (c.get("g"), c.get("sym"), c.get("rad"), c.get("lvl"), c.get("tot")))
+    matchers = [known_rv_initial_bound, known_symm_radius]
+    if quick:
+        runs = [("quick", "150", 0)]
+    else:
+        runs = [("rest", "1500", 0)] + [("exh4:%d/8" % k, "0", 1 + k) for k in range(8)]
+    rs = []
+    for mode, count, so in runs:
+        rs.append(codec.run_simple("C16", ctx, "ess", ["--count", count, "--maxn", "150", "--mode", mode],
+                                   oracle_aspects=oracle, corr_aspects=corr, nontrivial=nontrivial,
+                                   seed_offset=so, name="ess_" + mode.replace(":", "_").replace("/", "of"),
+                                   known_matchers=matchers))
+    r = codec.merge(rs)
     r["rule"] = ("all digraphs on <= 3 nodes (loops included) x every level x use_tot x {default radial set, every explicit "
                  "radial set}; digraphs on 4 nodes (all in the thorough tier) and a sample on 5; all symmetric graphs on <= 4 "
                  "nodes (5 sampled); random digraphs up to 150 nodes (sparse, DAG, many SCCs, disconnected, one big SCC, chains, "
                  "dense) and random symmetric graphs (sparse, trees, equal-sized parts, paths); pools of 1..16 threads; "
                  "distinct = different (graph, symmetric, radial set, level, use_tot) with at least 2 nodes")
-    violations, known = codec.verdict("C16", r, known_matchers=[known_rv_initial_bound, known_symm_radius])
+    violations, known = codec.verdict("C16", r, known_matchers=matchers)
     r.update({"violations": violations, "known": known})
     return r
